@@ -81,7 +81,8 @@ def handler : Handler := fun op j =>
     let b ← fbundle? (← getObj? j "bundle")
     let mtu := getNat? j "mtu"
     let now : Timestamp := ⟨(getNat? j "now").getD 1, (getNat? j "nowseq").getD 0⟩
-    let cfg : Cfg := { crcFn := zeroCrc, secStep := id, now := now, nowRe := ⟨now.time, now.seq + 1⟩,
+    let cfg : Cfg := { crcFn := zeroCrc, secStep := id,
+                       now := if (getBool? j "as_source").getD true then some now else none,
                        reroute := (getBool? j "reroute").getD true }
     let r := sendBundle cfg cfg.now mtu b
     some (jobj [("escaped", Json.bool r.escaped), ("nsched", jnat r.scheduled.length),
